@@ -409,7 +409,114 @@ fn public_case_m<B: Backend, M: BytesPayload>(c: &PCase, acc: &mut Acc) -> R {
     Ok(())
 }
 
+// ---------------------------------------------------------------------------
+// conforming tokens from other implementations, read through the typed (JSON) payload and
+// footer types: the JSON is formatted the way *other* serialisers format it
+
+#[derive(Clone, Debug, Serialize, Deserialize)]
+pub struct ForeignCase {
+    pub public: bool,
+    pub key: KeySeed,
+    pub style: u8,
+    pub text: String,
+    pub n: i32,
+    pub assertion: BytesSpec,
+    pub nonce_seed: u32,
+}
+
+/// one JSON object, formatted in a foreign but valid way; the value it denotes is whatever
+/// serde_json reads from it
+pub fn foreign_json(style: u8, text: &str, n: i32) -> String {
+    let t = serde_json::to_string(text).unwrap();
+    match style % 9 {
+        0 => format!("{{\"kid\": {t}, \"n\": {n}}}"),                       // python json.dumps separators
+        1 => format!("{{\"n\":{n},\"kid\":{t}}}"),                          // members not in sorted order
+        2 => format!(" {{\"kid\":{t},\"n\":{n}}}\n"),                       // surrounding whitespace
+        3 => format!("{{\"kid\":{t},\"url\":\"a\\/b\\u0041\"}}"),          // PHP-style escaped slash, \u escape
+        4 => format!("{{\"kid\":{t},\"n\":{n}.0e0,\"z\":-0}}"),               // number spellings
+        5 => format!("{{\"kid\":\"dup\",\"kid\":{t},\"n\":{n}}}"),            // duplicate member
+        6 => format!("{{\n  \"kid\": {t},\n  \"n\": {n}\n}}"),              // pretty printed
+        7 => format!("{{\"kid\":{t},\"n\":{n},\"wpk\":null,\"extra\":[ ]}}"), // unknown members, spaces in arrays
+        _ => format!("{{\"kid\":{t},\"n\":{n}}}"),                          // this library's own formatting (control)
+    }
+}
+
+fn foreign_case<B: Backend>(c: &ForeignCase, acc: &mut Acc) -> R {
+    use paseto_json::Json;
+    let name = B::NAME;
+    let ver = B::VER;
+    let purpose = if c.public { "public" } else { "local" };
+    let ftext = foreign_json(c.style, &c.text, c.n);
+    let mtext = foreign_json(c.style.wrapping_add(3), &c.text, c.n.wrapping_add(1));
+    let (m, f, i) = (mtext.as_bytes().to_vec(), ftext.as_bytes().to_vec(), c.assertion.bytes());
+    let want_m: serde_json::Value = serde_json::from_slice(&m).map_err(|e| Fail::new("HARNESS/foreign-json", format!("{e}")))?;
+    let want_f: serde_json::Value = serde_json::from_slice(&f).map_err(|e| Fail::new("HARNESS/foreign-json", format!("{e}")))?;
+    let (tok, un) = if c.public {
+        let sk_raw = secret_bytes(ver, &c.key);
+        let pk_raw = public_bytes(ver, &sk_raw);
+        let pre = model::public_preauth(ver, &pk_raw, &m, &f, &i).map_err(|e| Fail::new("HARNESS/model-preauth", e))?;
+        let sig: Vec<u8> = match ver {
+            Ver::V2 | Ver::V4 => model::ed25519_sign(&sk_raw, &pre).map_err(|e| Fail::new("HARNESS/sign", e))?.to_vec(),
+            Ver::V3 => model::p384_sign_awslc(&sk_raw, &pre).map_err(|e| Fail::new("HARNESS/sign", e))?,
+            Ver::V1 => model::rsa_pss_sign_awslc(&model::pem_to_der(&sk_raw), &pre).map_err(|e| Fail::new("HARNESS/sign", e))?,
+        };
+        let tok = model::public_assemble(ver, &m, &sig, &f);
+        let k = key_from_bytes::<V<B>, Public>(&pk_raw).map_err(|e| Fail::new("HARNESS/key", format!("{e}")))?;
+        let un = tok
+            .parse::<SealedToken<V<B>, Public, Json<serde_json::Value>, Json<serde_json::Value>>>()
+            .map_err(|e| format!("parse: {e}"))
+            .and_then(|t| {
+                let shown = t.to_string();
+                t.unseal(&k, &i, &NoValidation::dangerous_no_validation()).map(|u| (u.claims.0, u.footer.0, shown)).map_err(|e| format!("{e}"))
+            });
+        (tok, un)
+    } else {
+        let kraw = local_key_bytes(&c.key);
+        let n = rng::det_bytes(c.nonce_seed as u64, 0xf0e, ver.local_nonce_len());
+        let payload = model::local_encrypt_with_nonce(ver, &kraw, &n, &m, &f, &i).map_err(|e| Fail::new("HARNESS/model-local2", e))?;
+        let tok = model::assemble(&model::header(ver, "local"), &payload, &f);
+        let k = key_from_bytes::<V<B>, Local>(&kraw).map_err(|e| Fail::new("HARNESS/key", format!("{e}")))?;
+        let un = tok
+            .parse::<SealedToken<V<B>, Local, Json<serde_json::Value>, Json<serde_json::Value>>>()
+            .map_err(|e| format!("parse: {e}"))
+            .and_then(|t| {
+                let shown = t.to_string();
+                t.unseal(&k, &i, &NoValidation::dangerous_no_validation()).map(|u| (u.claims.0, u.footer.0, shown)).map_err(|e| format!("{e}"))
+            });
+        (tok, un)
+    };
+    match un {
+        Ok((mm, ff, shown)) => {
+            ensure!(mm == want_m && ff == want_f, format!("C03/{name}/{purpose}/foreign-json/claims-differ"), "typed claims / footer differ from the JSON values in the token");
+            ensure!(shown == tok, format!("C03/{name}/{purpose}/foreign-json/reserialise"), "the parsed token does not print as the string it was parsed from");
+        }
+        Err(e) => {
+            return Err(Fail::new(
+                format!("C03/{name}/{purpose}/foreign-json/rejected"),
+                format!("a specification-conforming token whose JSON footer is formatted as {ftext:?} was rejected through the typed footer: {e}"),
+            ));
+        }
+    }
+    acc.eval();
+    if c.style % 9 != 8 {
+        acc.nt(hash_of(&(c.public, &c.key, c.style % 9, &c.text, c.n)));
+    }
+    acc.class(&format!("foreign-json-style:{}", c.style % 9));
+    acc.sample(|| json!({"backend": name, "purpose": purpose, "footer": ftext, "message": mtext}));
+    Ok(())
+}
+
 fn subs_for<B: Backend>(out: &mut Vec<SubCheck>) {
+    out.push(SubCheck::prop(
+        format!("c03.foreign-json/{}", B::NAME),
+        if B::VER == Ver::V1 { 6 } else { 2 },
+        if B::VER == Ver::V1 { (60, 600) } else { (300, 6000) },
+        |_t| {
+            (any::<bool>(), gens::key_seed(), 0u8..9, prop_oneof![Just(String::new()), "[a-zA-Z0-9 /._-]{0,24}", "\\PC{0,12}"], any::<i32>(), gens::assertion(B::VER.has_assertion()), any::<u32>())
+                .prop_map(|(public, key, style, text, n, assertion, nonce_seed)| ForeignCase { public, key, style, text, n, assertion, nonce_seed })
+        },
+        foreign_case::<B>,
+    ));
     out.push(SubCheck::prop(
         format!("c03.local/{}", B::NAME),
         3,
@@ -456,7 +563,7 @@ pub fn def() -> PropertyDef {
     PropertyDef {
         id: "C03",
         level: "exploration",
-        rule: "proptest cases (key, message, footer, assertion, nonce kind {seeded, all-zero, all-ones, counter block 00..00ff..ff, ff..f0+k, ff..ff}); three relations per case: (1) the library's token for a draw equals the reference model's token byte for byte (Ed25519 signatures byte-identical; ECDSA / RSA-PSS accepted by an independent verifier over the model's PAE), (2) a model-built conforming token (model-chosen nonce incl. v1 embedded counter blocks at the 64/128-bit wrap; independent signer incl. high-S and random-k ECDSA) unseals to the same claims, (3) the sibling back end accepts this back end's encrypt()/sign() output. v3 derived counter blocks are forced through the paseto_verif IV hook. Non-trivial iff message >= 2 cipher blocks, or a counter-wrap nonce kind, or non-empty footer/assertion",
+        rule: "proptest cases (key, message, footer, assertion, nonce kind {seeded, all-zero, all-ones, counter block 00..00ff..ff, ff..f0+k, ff..ff}); three relations per case: (1) the library's token for a draw equals the reference model's token byte for byte (Ed25519 signatures byte-identical; ECDSA / RSA-PSS accepted by an independent verifier over the model's PAE), (2) a model-built conforming token (model-chosen nonce incl. v1 embedded counter blocks at the 64/128-bit wrap; independent signer incl. high-S and random-k ECDSA) unseals to the same claims, (3) the sibling back end accepts this back end's encrypt()/sign() output. v3 derived counter blocks are forced through the paseto_verif IV hook. A further family reads model-built tokens whose JSON message and footer are formatted the way other serialisers do (spaces after separators, unsorted or duplicate members, escaped slashes, number spellings, surrounding whitespace, unknown members) through Json<Value> payload and footer types: they must unseal to the values the JSON denotes and print as the string parsed. Non-trivial iff message >= 2 cipher blocks, or a counter-wrap nonce kind, or non-empty footer/assertion",
         assumptions: vec![
             "the reference model is validated against all upstream vectors at start-up",
             "v3 counter wrap is reached on the component through the paseto_verif IV hook (measure 2^-48 otherwise)",
